@@ -479,13 +479,11 @@ def slice_(ip, b, lo, hi, step, st, node=None):
         except Exception:
             pass
     if isinstance(b, BytesV) and all(isinstance(x, Const) for x in (lo, hi, step)) and step.value is None:
+        if getattr(ip, 'record_slices', False) and b.parts and all(p[0] in ('lit', 'fix') for p in b.parts):
+            return _cut_recorded(ip, b, lo.value, hi.value, st, node)
         bl, bh = bytes_len(b, st)
         if bl == bh and bl != INF:
-            r = range(int(bl))[lo.value:hi.value]
-            n = len(r)
-            if getattr(ip, 'record_slices', False) and len(b.parts) == 1 and b.parts[0][0] == 'fix':
-                st.actions.append(Action('slice', b.parts[0][2], 'slice', [Const(r.start), Const(r.stop)], None,
-                                         getattr(node, 'lineno', None), getattr(st.cur_func(), 'qualname', None)))
+            n = len(range(int(bl))[lo.value:hi.value])
             return BytesV([('fix', n, d)])
     if isinstance(b, Obj) and st.heap[b.oid].kind == 'list':
         h = st.heap[b.oid]
@@ -496,6 +494,49 @@ def slice_(ip, b, lo, hi, step, st, node=None):
         return SliceV(d, 'list', b, lo, hi)
     kind = 'bytes' if is_bytes(b) else getattr(b, 'kind', None)
     return SliceV(d, kind, b, lo, hi)
+
+
+def fix_origin(name):
+    """('base', absolute offset) of a fixed-width part named 'base@off' (read-coverage analyses)."""
+    base, sep, off = name.rpartition('@')
+    if sep and off.isdigit():
+        return base, int(off)
+    return name, 0
+
+
+def _cut_recorded(ip, b, lo, hi, st, node):
+    """Exact slice of a byte string made of literal and fixed-width parts; every fixed-width piece keeps
+    its absolute offset in the name and the read is logged as a 'slice' action."""
+    total = sum(len(p[1]) if p[0] == 'lit' else p[1] for p in b.parts)
+    r = range(total)[lo:hi]
+    out = []
+    pos = 0
+    for p in b.parts:
+        n = len(p[1]) if p[0] == 'lit' else p[1]
+        a, z = max(r.start, pos), min(r.stop, pos + n)
+        if a < z:
+            if p[0] == 'lit':
+                out.append(('lit', p[1][a - pos:z - pos]))
+            else:
+                base, off = fix_origin(p[2])
+                out.append(('fix', z - a, '%s@%d' % (base, off + a - pos)))
+                st.actions.append(Action('slice', base, 'slice', [Const(off + a - pos), Const(off + z - pos)], None,
+                                         getattr(node, 'lineno', None), getattr(st.cur_func(), 'qualname', None)))
+        pos += n
+    if out and all(p[0] == 'lit' for p in out):
+        return Const(b''.join(p[1] for p in out))
+    return BytesV(out) if out else Const(b'')
+
+
+def record_uses(ip, args, st, line):
+    """A byte string with fixed-width parts handed whole to a callee counts as read."""
+    for a in args:
+        if isinstance(a, BytesV):
+            for p in a.parts:
+                if p[0] == 'fix':
+                    base, off = fix_origin(p[2])
+                    st.actions.append(Action('slice', base, 'use', [Const(off), Const(off + p[1])], None, line,
+                                             getattr(st.cur_func(), 'qualname', None)))
 
 
 class SliceV(Opaque):
@@ -552,6 +593,8 @@ def call_prim(ip, fv, args, kwargs, st, line, node):
     """Builtins, struct, container methods.  None = not a primitive."""
     name = ext_name(fv)
     if name is not None:
+        if getattr(ip, 'record_slices', False) and name not in ('len', 'isinstance', 'bool'):
+            record_uses(ip, args, st, line)
         h = _EXT.get(name)
         if h is not None:
             return h(ip, args, kwargs, st, line, node)
